@@ -12,6 +12,7 @@ RULE = ("BatchNorm1d/2d histories of 5-30 events over {train(), eval(), forward(
         "eval identity, training survivors = x/(1-p) to the dtype's rounding, zero rate and lag-1 row/column mask correlation in 6-sigma bands "
         "(n>=40000), per-position rate over 300 repeated calls, gradient = g*mask/(1-p); nested-mode scenario: Dropout / BatchNorm inside parent modules with diverging modes must follow the parent's last train()/eval(). distinct key = event-kind sequence + configuration; "
         "non-trivial = history has a mode switch and >= 2 training forwards (BN) / p in (0,1) (dropout)")
+RULE += (' Added after the seeded rounds: momentum 0.0, eps in {1e-5, 1e-3, 0.5}, batches far from the origin, `track_running_stats` switched off on the live module, `Dropout.p` reassigned.')
 ASSUMPTIONS = ["BatchNorm training on one value per channel: raising is accepted (PyTorch raises); the counter may or may not have advanced (PyTorch "
                "advances it); what is asserted is that the buffers never become non-finite and otherwise stay as they were",
                "6-sigma bands for the dropout statistics; NumPy global generator seeded per case"]
